@@ -15,6 +15,8 @@ INF_Q = 1000000
 KB = {"eq": (1.0, 1.0), "lower": (0.0, INF), "upper": (-INF, 2.0), "two": (-1.0, 2.0), "none": (-INF, INF)}
 NL_A = np.array([[1.0, 1.0, 1.0], [1.0, 0.0, -2.0], [2.0, 0.0, -1.0]]); NL_B = np.array([0.0, 1.0, 0.0])
 LIN_A = np.array([[1.0, 0.0, 1.0], [1.0, 0.0, -1.0], [1.0, 1.0, 0.0]])
+# with two fixed variables (mask "fix23"): the first row touches both fixed variables with coefficients that cancel in the sum
+LIN_A23 = np.array([[1.0, 1.0, -1.0], [1.0, 0.0, 0.0], [1.0, 1.0, 0.0]])
 GRID = [[a, b] for a in (-2, 0, 1, 3) for b in (-2, 0, 1, 3)]
 
 
@@ -25,7 +27,9 @@ def q(b):
 def drive(sc):
     method = sc["method"]
     nnl, nlin = len(sc["nl"]), len(sc["lin"])
-    masked = sc["mask"] == "fix2"
+    masked = sc["mask"] in ("fix2", "fix23")
+    fix23 = sc["mask"] == "fix23"
+    lin_a = LIN_A23 if fix23 else LIN_A
     if method == "cobyla":
         vlb, vub = [-INF] * 3, [INF] * 3
     elif method == "differential_evolution":
@@ -39,20 +43,23 @@ def drive(sc):
            "optimizer": {"method": "rvscipy/" + (method.upper() if (sc["maxit"] > 0 and sc["options"] == "dict") or ((len(sc["nl"]) + len(sc["lin"])) % 2 == 1 and not sc["maxit"]) else method)},
            "gradient": {"number_of_perturbations": 4, "perturbation_magnitudes": 0.01}}
     if masked:
-        cfg["variables"]["mask"] = [True, False, True]
+        cfg["variables"]["mask"] = [True, False, False] if fix23 else [True, False, True]
     if sc["maxit"]:
         cfg["optimizer"]["max_iterations"] = sc["maxit"]
     if sc["options"] == "empty":
         cfg["optimizer"]["options"] = {}
     elif sc["options"] == "dict":
         cfg["optimizer"]["options"] = {"disp": False}
+        if (nnl + nlin) % 2 == 0 and method != "differential_evolution":
+            # the dict carries its own iteration-limit entry: a configured max_iterations still is the limit that counts
+            cfg["optimizer"]["options"]["maxfun" if method == "tnc" else "maxiter"] = 3
     if nnl:
         cfg["nonlinear_constraints"] = {"lower_bounds": [KB[k][0] for k in sc["nl"]], "upper_bounds": [KB[k][1] for k in sc["nl"]]}
         if sc.get("narrow"):                  # a two-sided band of relative width 1e-6: still two inequalities, not an equality
             cfg["nonlinear_constraints"]["lower_bounds"][0] = -1.0
             cfg["nonlinear_constraints"]["upper_bounds"][0] = -1.0 + 1e-6
     if nlin:
-        cfg["linear_constraints"] = {"coefficients": LIN_A[:nlin].tolist(), "lower_bounds": [KB[k][0] for k in sc["lin"]],
+        cfg["linear_constraints"] = {"coefficients": lin_a[:nlin].tolist(), "lower_bounds": [KB[k][0] for k in sc["lin"]],
                                      "upper_bounds": [KB[k][1] for k in sc["lin"]]}
 
     def evaluator(variables, context):
@@ -74,10 +81,10 @@ def drive(sc):
     if method != "differential_evolution" and zlib.crc32(str(sorted(sc.items())).encode()) % 2 == 1:
         from ..transforms_util import make_transforms
         transforms = make_transforms(var_scales=S_, var_offsets=O_, con_scales=[2.0, 4.0, 0.5][:nnl] if nnl else None)
-    free_idx = [0, 2] if masked else [0, 1, 2]
+    free_idx = [0] if fix23 else [0, 2] if masked else [0, 1, 2]
 
     def free_vec(g):
-        full = np.array([g[0], 1.0, g[1]], dtype=np.float64)
+        full = np.array([g[0], 1.0, 0.0 if fix23 else g[1]], dtype=np.float64)
         if transforms is not None:
             full = (full - O_) / S_
         return full[free_idx]
@@ -99,7 +106,7 @@ def drive(sc):
         if Captured.kind == "minimize":
             opts = kw.get("options") or {}
             e["opt"] = {"maxiter": int(opts.get("maxiter", -1)), "maxfun": int(opts.get("maxfun", -1))}
-            nfree = 2 if masked else 3
+            nfree = len(free_idx)
             base = free_vec([0, 0])
             for c in kw.get("constraints") or []:
                 row = {"eq": c["type"] == "eq", "vals": [], "jac0": [], "val0": num(None), "valp": []}
